@@ -7,6 +7,7 @@ import (
 	"errors"
 	"fmt"
 	"maps"
+	"reflect"
 	"sort"
 )
 
@@ -14,12 +15,28 @@ import (
 // for, with their target references, sorted by source reference (C11: state
 // key of the program search).
 func VerifCopierTrans(c *Copier) [][2]Reference {
-	out := make([][2]Reference, 0, len(c.trans))
-	for k, v := range c.trans {
-		out = append(out, [2]Reference{k, v})
+	// read through reflection so that a change of the table's key or value
+	// type (a refactoring of the Copier) does not break the harness build
+	rv := reflect.ValueOf(c.trans)
+	out := make([][2]Reference, 0, rv.Len())
+	for _, k := range rv.MapKeys() {
+		out = append(out, [2]Reference{verifAsRef(k), verifAsRef(rv.MapIndex(k))})
 	}
 	sort.Slice(out, func(i, j int) bool { return out[i][0] < out[j][0] })
 	return out
+}
+
+func verifAsRef(v reflect.Value) Reference {
+	if v.Type() == reflect.TypeOf(Reference(0)) {
+		return Reference(v.Uint())
+	}
+	switch v.Kind() {
+	case reflect.Uint, reflect.Uint8, reflect.Uint16, reflect.Uint32, reflect.Uint64:
+		return NewReference(uint32(v.Uint()), 0)
+	case reflect.Int, reflect.Int8, reflect.Int16, reflect.Int32, reflect.Int64:
+		return NewReference(uint32(v.Int()), 0)
+	}
+	return 0
 }
 
 type verifNopCloser struct{ *bytes.Buffer }
